@@ -1159,7 +1159,7 @@ def gen_odd_file(rng, profile):
     common_knobs(rng, plan)
     if profile != "C13":
         plan["knobs"]["leakcheck"] = 0
-    f = rng.choice(ODD_FILES)
+    f = "haschildren_childless" if rng.random() < 0.4 else rng.choice(ODD_FILES)
     v = b.v()
     b.setup.append(P.step(0, "OPEN", v, P.hexenc("/sim/0/" + f), rng.choice(["cooked", "cooked", "raw"])))
     i = b.i()
@@ -1169,7 +1169,11 @@ def gen_odd_file(rng, profile):
         b.scripts[c] = []
     for _ in range(rng.choice([2, 3, 4])):
         head = rng.choice(["entry", "entry", "raw entry", "unit root", "unit entry", "entry child"])
-        text = " ".join(w for w in [head, rng.choice(ODD_REFS), rng.choice(ODD_PREDS), rng.choice(ODD_TAILS)] if w)
+        pred = rng.choice(ODD_PREDS) if rng.random() < 0.6 else \
+            rng.choice(["!TAG_base_type", "!TAG_typedef", "!TAG_subprogram", "!TAG_pointer_type", "!AT_name", "!AT_type", "!root", "!haschildren"])
+        tail = rng.choice(ODD_TAILS) if rng.random() < 0.6 else \
+            rng.choice([t for t in ODD_TAILS if t.startswith("abbrev")])
+        text = " ".join(w for w in [head, rng.choice(ODD_REFS), pred, tail] if w)
         c = rng.randrange(nclients)
         q = b.q()
         b.scripts[c].append(P.step(c, "PARSE", q, b.prog(text, 0)))
